@@ -427,6 +427,26 @@ def semantic_variants(case, info, rnd, extent=None):
         m, ops = rnd.choice(rel_ops)
         texts = ['{' + str(top - rnd.randrange(0, 40)) + '}' if k == 'rel' else pg2.operand(k) for k in ops]
         insert(f'  {m} ' + ', '.join(texts), 'E4-overflow-rel')
+    # E4: a sliced address whose high bits differ from those of the instruction (the low byte alone cannot say so);
+    # instruction and target sit on either side of a real page boundary inside a zone that starts mid-page, so that
+    # both lie in the same zone-relative page
+    fj = info.get('special', {}).get('fjmp')
+    if fj:
+        zs = fj['start']
+        boundary = (zs | 0xFF) + 1                     # first real page boundary inside the zone
+        back = rnd.choice([2, 4, 16, 0x40])
+        ahead = rnd.choice([0, 1, 0x10, 0x7f])
+        for ok_case in (False, True):
+            c = copy.deepcopy(case)
+            tgt = boundary + ahead if not ok_case else boundary - 1 - (ahead % back)
+            c['prog'] = c['prog'][:-1] + ['  .memzone ZU', f'  .org ${boundary - back:x}', '  .memzone GLOBAL'] + c['prog'][-1:]
+            c['inject'] = {'pos': len(c['prog']) - 2, 'line': f'  fjmp ${tgt:x}'}
+            c['mutation'] = {'kind': 'E4-sliced-address', 'valid': ok_case}
+            if not ok_case:
+                c['expect_fail'] = 'E4-sliced-address-in-another-page'
+            else:
+                c['expect_ok'] = 'sliced-address-in-the-same-page'      # control: shows that the scenario is live
+            out.append(c)
     # E4: value the field cannot hold (only for numeric kinds that appear alone, to keep the statement well-formed)
     width = info['width']
     cands = []
@@ -628,6 +648,11 @@ def explore(subseed, cfg):
     # (3) E1-E4
     extent = len(br['files'].get(image_path(case)) or '') if case.get('binary', True) else None
     for c in semantic_variants(case, info, rnd, extent):
+        if c.get('expect_ok'):
+            res = run(c, 'control:' + c['expect_ok'])
+            key = 'control_' + c['expect_ok'] + ('_accepted' if not failed(res['result']) else '_rejected')
+            out['probes'][key] = out['probes'].get(key, 0) + 1
+            continue
         run(c, 'sem:' + c['expect_fail'])
         out['probes']['E:' + c['expect_fail'].split('-')[0]] = out['probes'].get('E:' + c['expect_fail'].split('-')[0], 0) + 1
     # (4) sampled textual corruptions (1-4 in sequence) and fault pairs
@@ -655,7 +680,7 @@ def explore(subseed, cfg):
     # hash seeds, `python -O` / `-OO` where asserts are compiled away) - rejected programs must stay rejected, closed
     if (subseed & 0xFFFFFFFF) % cfg.get('xproc_every', 6) == 0:
         from sim import xproc
-        sem = semantic_variants(case, info, random.Random(subseed ^ 0x5EED), extent)
+        sem = [c for c in semantic_variants(case, info, random.Random(subseed ^ 0x5EED), extent) if c.get('expect_fail')]
         picks = rnd.sample(sem, min(cfg.get('xproc_cases', 5), len(sem)))
         for i, c in enumerate(picks):
             pyopt = [1, 2, 0][i % 3]
